@@ -87,7 +87,7 @@ def wrapped(core_spelling, wrappers, pads=("", " ")):
 
 class C17(PropBase):
     pid = "C17"
-    translators = ["join_sites.py", "c17_lookup.py"]
+    translators = ["join_sites.py", "c17_lookup.py", "c17_flow.py"]
     coq_dirs = ["Base", "C17", "Gen"]
     bins = ["c17"]
     rule = ("cases = (code_file, debug_file, debug id text, code id text); strings exhaustive over the alphabet "
